@@ -38,6 +38,10 @@ pub struct Desc {
     pub moved: bool,
     /// pool size: PerShard(pool_n) / PerHost(pool_n)
     pub pool_n: usize,
+    /// SessionBuilder::local_ip_address(an unused address of the mock's loopback block)
+    pub local_ip: bool,
+    /// SessionBuilder::shard_aware_local_port_range(a narrow custom range, see `Desc::port_range`)
+    pub narrow_ports: bool,
 }
 
 impl Desc {
@@ -58,6 +62,8 @@ impl Desc {
             "down": self.down,
             "moved": self.moved,
             "pool_n": self.pool_n,
+            "local_ip": self.local_ip,
+            "narrow_ports": self.narrow_ports,
         })
     }
     pub fn from_json(v: &Value) -> Option<Desc> {
@@ -74,11 +80,23 @@ impl Desc {
             down: v["down"].as_bool().unwrap_or(false),
             moved: v["moved"].as_bool().unwrap_or(false),
             pool_n: v["pool_n"].as_u64().unwrap_or(1) as usize,
+            local_ip: v["local_ip"].as_bool().unwrap_or(false),
+            narrow_ports: v["narrow_ports"].as_bool().unwrap_or(false),
         })
+    }
+    /// The shard-aware local port range the session is configured with (inclusive): the driver's default, or a
+    /// 400-port window that depends on the descriptor (so concurrent clusters binding the wildcard address rarely meet).
+    pub fn port_range(&self) -> (u16, u16) {
+        if self.narrow_ports {
+            let lo = 20000 + (vcore::fnv64(self.to_json().to_string().as_bytes()) % 70) as u16 * 400;
+            (lo, lo + 399)
+        } else {
+            (49152, 65535)
+        }
     }
     pub fn label(&self) -> String {
         let sh: Vec<String> = self.shards.iter().map(|s| s.map(|(n, m)| format!("{n}/{m}")).unwrap_or_else(|| "U".into())).collect();
-        format!("dcs={:?} shards=[{}] vn={} pool={}({}) tablets={}{}", self.dc_sizes, sh.join(","), self.vnodes, if self.per_shard { "per-shard" } else { "per-host" }, self.pool_n, self.tablets, if self.nat { " nat" } else if self.restart { " +restarts" } else if self.down { " +down" } else if self.moved { " +moved" } else { "" })
+        format!("dcs={:?} shards=[{}] vn={} pool={}({}) tablets={}{}", self.dc_sizes, sh.join(","), self.vnodes, if self.per_shard { "per-shard" } else { "per-host" }, self.pool_n, self.tablets, if self.local_ip || self.narrow_ports { format!(" local_ip={} ports={:?}", self.local_ip, self.port_range()) } else { String::new() } + if self.nat { " nat" } else if self.restart { " +restarts" } else if self.down { " +down" } else if self.moved { " +moved" } else { "" })
     }
     fn seed(&self) -> u64 {
         let mut j = self.to_json();
@@ -88,6 +106,8 @@ impl Desc {
         j.as_object_mut().unwrap().remove("down");
         j.as_object_mut().unwrap().remove("moved");
         j.as_object_mut().unwrap().remove("pool_n");
+        j.as_object_mut().unwrap().remove("local_ip");
+        j.as_object_mut().unwrap().remove("narrow_ports");
         vcore::fnv64(j.to_string().as_bytes())
     }
 }
@@ -532,7 +552,7 @@ pub fn enumerate(thorough: bool) -> Vec<Desc> {
                         if thorough && vnodes == 4 && n > 4 {
                             continue;
                         }
-                        out.push(Desc { dc_sizes: dcs.clone(), shards: shards.clone(), vnodes, per_shard, tablets, keys_per_cell, repeats, nat: false, restart: vnodes == 2 && shards.iter().any(|x| x.is_some()), down: vnodes == 1 && n >= 2, moved: vnodes == 3 && n >= 2, pool_n: 1 });
+                        out.push(Desc { dc_sizes: dcs.clone(), shards: shards.clone(), vnodes, per_shard, tablets, keys_per_cell, repeats, nat: false, restart: vnodes == 2 && shards.iter().any(|x| x.is_some()), down: vnodes == 1 && n >= 2, moved: vnodes == 3 && n >= 2, pool_n: 1, local_ip: false, narrow_ports: false });
                     }
                 }
             }
@@ -543,7 +563,7 @@ pub fn enumerate(thorough: bool) -> Vec<Desc> {
         let n: usize = dcs.iter().sum();
         for nr in if thorough { vec![3u16, 8] } else { vec![3u16] } {
             for tablets in [0usize, 3] {
-                out.push(Desc { dc_sizes: dcs.clone(), shards: vec![Some((nr, 12)); n], vnodes: 2, per_shard: true, tablets, keys_per_cell, repeats, nat: true, restart: false, down: false, moved: false, pool_n: 1 });
+                out.push(Desc { dc_sizes: dcs.clone(), shards: vec![Some((nr, 12)); n], vnodes: 2, per_shard: true, tablets, keys_per_cell, repeats, nat: true, restart: false, down: false, moved: false, pool_n: 1, local_ip: false, narrow_ports: false });
             }
         }
     }
@@ -555,11 +575,36 @@ pub fn enumerate(thorough: bool) -> Vec<Desc> {
             let shards: Vec<Option<(u16, u8)>> = (0..n).map(|i| pat[i % pat.len()]).collect();
             for (per_shard, pool_n) in [(true, 2usize), (false, 3)] {
                 for tablets in if thorough { vec![0usize, 3] } else { vec![0usize] } {
-                    out.push(Desc { dc_sizes: dcs.clone(), shards: shards.clone(), vnodes: 2, per_shard, tablets, keys_per_cell, repeats, nat: false, restart: per_shard, down: false, moved: false, pool_n });
+                    out.push(Desc { dc_sizes: dcs.clone(), shards: shards.clone(), vnodes: 2, per_shard, tablets, keys_per_cell, repeats, nat: false, restart: per_shard, down: false, moved: false, pool_n, local_ip: false, narrow_ports: false });
                 }
             }
         }
     }
+    out.extend(port_config_clusters(thorough, true));
     out.dedup();
+    out
+}
+
+/// Session configurations that decide where a shard-aware connection leaves from: {local IP address set / unset} x
+/// {default shard-aware local port range / a narrow custom one}, per-shard pools towards sharded nodes.
+/// `only_non_default` leaves out the (unset, default) combination, which every other cluster already has.
+pub fn port_config_clusters(thorough: bool, only_non_default: bool) -> Vec<Desc> {
+    let s = |n: u16, m: u8| Some((n, m));
+    let pats: Vec<Vec<Option<(u16, u8)>>> = if thorough { vec![vec![s(3, 12)], vec![s(3, 12), s(2, 12), None, s(1, 12)], vec![s(8, 12)]] } else { vec![vec![s(3, 12)], vec![s(3, 12), s(2, 12), None, s(1, 12)]] };
+    let mut out = Vec::new();
+    for dcs in [vec![1usize], vec![2], vec![2, 1]] {
+        let n: usize = dcs.iter().sum();
+        for pat in &pats {
+            let shards: Vec<Option<(u16, u8)>> = (0..n).map(|i| pat[i % pat.len()]).collect();
+            for pool_n in [1usize, 2] {
+                for (local_ip, narrow_ports) in [(false, false), (true, false), (false, true), (true, true)] {
+                    if only_non_default && !local_ip && !narrow_ports {
+                        continue;
+                    }
+                    out.push(Desc { dc_sizes: dcs.clone(), shards: shards.clone(), vnodes: 2, per_shard: true, tablets: 0, keys_per_cell: if thorough { 2 } else { 1 }, repeats: 1, nat: false, restart: true, down: false, moved: false, pool_n, local_ip, narrow_ports });
+                }
+            }
+        }
+    }
     out
 }
